@@ -38,6 +38,9 @@ struct RunCfg {
   sim::Sched sched;
   uint8_t junk = 0xA5;
   uint64_t step_budget = 0;
+  bool operand2 = false;                  // filter-style run turned into "lbzip2 [opts] <first> <f>": the data arrives as the SECOND FILE operand of the
+                                          // invocation, after a small valid first one, and the result's `out` is the content of f's output file
+                                          // (state a finished operand leaves behind must not matter: seeded changes C05-3, C02-3)
   int workers() const;                    // value of -n, 0 if absent
   void set_workers(int w);
   std::string brief() const;
